@@ -33,7 +33,8 @@ def gen_scenarios(rng, n, spin):
         if rng.random() < 0.4:
             objective = cs.gen_poly(rng, labels, maxdeg=2, maxterms=2, coefs=(-2, 1, 3))
         scens.append({"labels": labels, "steps": steps, "objective": objective, "arg_form": rng.choice(["dict", "dict", "model", "pc"]),
-                      "fork": rng.choice([None, None, None, "copy", "add0", "mul1", "ctor", "neg"])})
+                      "fork": rng.choice([None, None, None, "copy", "add0", "mul1", "ctor", "neg"]),
+                      "rebind": rng.choice([None, None, "copy", "add0", "mul1", "ctor", "neg", "refresh"])})
     return scens
 
 
@@ -59,7 +60,7 @@ def exhaustive_scenarios(polys, spin):
 def run_scenarios(scens, spin):
     recs, owners = [], []
     for si, sc in enumerate(scens):
-        rs = cs.run_scenario(si, sc["steps"], spin, sc["labels"], len(recs), objective=sc["objective"], arg_form=sc["arg_form"], fork=sc.get("fork"))
+        rs = cs.run_scenario(si, sc["steps"], spin, sc["labels"], len(recs), objective=sc["objective"], arg_form=sc["arg_form"], fork=sc.get("fork"), rebind=sc.get("rebind"))
         for r in rs:
             owners.append(si)
         recs += rs
@@ -67,7 +68,7 @@ def run_scenarios(scens, spin):
 
 
 def describe(sc):
-    return {"labels": [repr(l) for l in sc["labels"]], "objective": repr(sc["objective"]), "arg_form": sc["arg_form"], "fork": sc.get("fork"),
+    return {"labels": [repr(l) for l in sc["labels"]], "objective": repr(sc["objective"]), "arg_form": sc["arg_form"], "fork": sc.get("fork"), "rebind": sc.get("rebind"),
             "steps": [{k: (repr(v) if k in ("P", "bounds") else v) for k, v in st.items() if k != "bounds_rec"} for st in sc["steps"]]}
 
 
